@@ -334,8 +334,58 @@ fn check_zone_transition_days(index: u64, acc: &mut Acc) {
     }
 }
 
+/// Exhaustive: the default sun hours of a zone-only location on the days around every offset transition of every
+/// zone (a zone that skips 06:00, 07:00, 19:00 or 20:00 on some day still has its default events at those
+/// wall-clock times: the schedule of a day is expressed in wall-clock minutes).
+fn check_zone_default_days(index: u64, acc: &mut Acc) {
+    let tz = chrono_tz::TZ_VARIANTS[index as usize];
+    let expected: [(&str, (i64, i64)); 3] = [("dawn-sunrise", (360, 420)), ("sunrise-sunset", (420, 1140)), ("sunset-dusk", (1140, 1200))];
+    let ohs: Vec<_> = expected
+        .iter()
+        .map(|(e, _)| OpeningHours::parse(e).unwrap().with_context(Context::default().with_locale(TzLocation::new(tz))))
+        .collect();
+    for t in crate::props::c09::all_transitions(tz) {
+        let before = crate::props::c09::offset_at(tz, t - Duration::seconds(1));
+        let after = crate::props::c09::offset_at(tz, t);
+        let local = t + Duration::seconds(after);
+        // does the skipped stretch contain one of the four default times?
+        let (lo, hi) = (t + Duration::seconds(before.min(after)), t + Duration::seconds(before.max(after)));
+        let skips_default = after > before
+            && [6u32, 7, 19, 20].iter().any(|h| {
+                [lo.date(), hi.date()].iter().any(|d| {
+                    let x = d.and_hms_opt(*h, 0, 0).unwrap();
+                    x >= lo && x < hi
+                })
+            });
+        for d in [local.date().pred_opt().unwrap(), local.date(), local.date().succ_opt().unwrap()] {
+            if d.year() < 1900 {
+                continue;
+            }
+            for ((expr, span), oh) in expected.iter().zip(&ohs) {
+                acc.case(skips_default);
+                match open_periods(oh, d) {
+                    Ok(got) if got == vec![*span] => {}
+                    Ok(got) => {
+                        return acc.fail("defaults", format!("{d} TzLocation::new({tz})"), format!("`{expr}` on {d} without coordinates (zone {tz}, offset change at {t} UTC): open periods {got:?} (minutes), expected exactly {span:?}"))
+                    }
+                    Err(p) => return acc.fail("defaults", format!("{d} TzLocation::new({tz})"), format!("`{expr}` on {d}: schedule_at panicked: {p}")),
+                }
+            }
+        }
+        if skips_default {
+            acc.label("transition_skipping_a_default_sun_hour");
+            acc.sample(|| format!("{tz}: the clocks skip {lo}..{hi} (local), which contains a default sun hour"));
+        }
+    }
+}
+
 fn extra(_tier: Tier, _seed: u64) -> Vec<SubOutcome> {
     vec![par_enumerate(
+        "default_hours_on_transition_days",
+        "exhaustive over the tz database: every offset transition 1900..2045 of each of the 596 zones x the local date of the transition, the day before and the day after x `dawn-sunrise`, `sunrise-sunset`, `sunset-dusk` under TzLocation::new(zone) (no coordinates): exactly 06:00-07:00, 07:00-19:00, 19:00-20:00; non-trivial = the transition skips 06:00, 07:00, 19:00 or 20:00",
+        chrono_tz::TZ_VARIANTS.len() as u64,
+        check_zone_default_days,
+    ), par_enumerate(
         "transition_days",
         "exhaustive over the tz database: for each of the 596 zones that owns a point of the 1-degree grid (|lat| <= 60; up to 3 points per zone, zone inferred by the library), every offset transition 1900..2045 x the local date of the transition and the day before: the checks of `ordering`, made on the instants the local event times denote when the offset changes during the solar day; non-trivial = the offset changes during the solar day and every event maps to a unique instant",
         chrono_tz::TZ_VARIANTS.len() as u64,
